@@ -758,6 +758,8 @@ class MultiStream(Stream):
         data = self.imol.data
         other_data = other.imol.data
         multiphase = other_data.ndim == 2
+        if multiphase and other.phases != self.phases:
+            raise ValueError('other stream must have the same phases to copy flow') # Rows are paired by position
         if exclude:
             data = self.imol.data
             other_data = other.imol.data
